@@ -5,6 +5,10 @@
  *   PW_BYTES    number of leading bytes of that call that still reach the file
  *   PW_MARKER   file that receives one line "fired fd=.. len=.. kept=.. path=.." just before dying
  *
+ *   PW_MODE     "error": instead of dying, the chosen call writes its first PW_BYTES bytes and then EVERY later write on such
+ *               files fails with ENOSPC until PW_UNTIL calls (counted as above) have been seen (a disk that is full for a while);
+ *               the marker receives "error ..." and the process lives on
+ *
  * The chosen call writes its first PW_BYTES bytes and the process then kills itself with SIGKILL
  * (no atexit handlers, no stream flushing: the same as a power cut or `kill -9` at that instant).
  * All other calls are passed through untouched.  Built at run time by monitors/c11.py:
@@ -64,24 +68,58 @@ static void pw_die(int fd, size_t len, size_t kept, const char *path)
   _exit(137);
 }
 
+#include <errno.h>
+
+static void pw_mark_error(int fd, size_t len, size_t kept, const char *path)
+{
+  const char *mk = getenv("PW_MARKER");
+  if (mk && *mk) {
+    int m = open(mk, O_WRONLY | O_CREAT | O_APPEND, 0644);
+    if (m >= 0) {
+      char line[4400];
+      int k = snprintf(line, sizeof(line), "error fd=%d len=%zu kept=%zu path=%s\n", fd, len, kept, path);
+      if (k > 0) real_write(m, line, (size_t)k);
+      close(m);
+    }
+  }
+}
+
+/* 0: pass through; 1: the chosen call (kill mode, or first failing call of error mode); 2: a later failing call (error mode) */
 static int pw_is_target(int fd, char *path, size_t cap)
 {
   const char *nth = getenv("PW_NTH");
+  const char *mode = getenv("PW_MODE");
+  const char *until = getenv("PW_UNTIL");
   if (!nth) return 0;
   if (!pw_match(fd, path, cap)) return 0;
   pw_count++;
-  return pw_count == atol(nth);
+  if (pw_count == atol(nth)) return 1;
+  if (mode && !strcmp(mode, "error") && pw_count > atol(nth) && until && pw_count <= atol(until)) return 2;
+  return 0;
+}
+
+static int pw_error_mode(void)
+{
+  const char *mode = getenv("PW_MODE");
+  return mode && !strcmp(mode, "error");
 }
 
 ssize_t write(int fd, const void *buf, size_t n)
 {
   char path[4096];
   if (!real_write) real_write = (ssize_t(*)(int, const void *, size_t))dlsym(RTLD_NEXT, "write");
-  if (pw_is_target(fd, path, sizeof(path))) {
+  int t = pw_is_target(fd, path, sizeof(path));
+  if (t) {
     const char *b = getenv("PW_BYTES");
     size_t keep = b ? (size_t)strtoull(b, 0, 10) : 0;
     if (keep > n) keep = n;
+    if (t == 2) keep = 0;
     pw_write_all(fd, (const char *)buf, keep);
+    if (pw_error_mode()) {
+      pw_mark_error(fd, n, keep, path);
+      errno = ENOSPC;
+      return -1;
+    }
     pw_die(fd, n, keep, path);
   }
   return real_write(fd, buf, n);
@@ -92,18 +130,25 @@ ssize_t writev(int fd, const struct iovec *iov, int cnt)
   char path[4096];
   if (!real_write) real_write = (ssize_t(*)(int, const void *, size_t))dlsym(RTLD_NEXT, "write");
   if (!real_writev) real_writev = (ssize_t(*)(int, const struct iovec *, int))dlsym(RTLD_NEXT, "writev");
-  if (pw_is_target(fd, path, sizeof(path))) {
+  int t = pw_is_target(fd, path, sizeof(path));
+  if (t) {
     const char *b = getenv("PW_BYTES");
     size_t keep = b ? (size_t)strtoull(b, 0, 10) : 0;
     size_t total = 0, left;
     int i;
     for (i = 0; i < cnt; i++) total += iov[i].iov_len;
     if (keep > total) keep = total;
+    if (t == 2) keep = 0;
     left = keep;
     for (i = 0; i < cnt && left > 0; i++) {
       size_t k = iov[i].iov_len < left ? iov[i].iov_len : left;
       pw_write_all(fd, (const char *)iov[i].iov_base, k);
       left -= k;
+    }
+    if (pw_error_mode()) {
+      pw_mark_error(fd, total, keep, path);
+      errno = ENOSPC;
+      return -1;
     }
     pw_die(fd, total, keep, path);
   }
